@@ -881,3 +881,66 @@ Definition state_matches (vars : list dv) (cells : list dcell) (st : option (env
   | None => false
   | Some (e, h) => match match_vals [] vars e with Some m => match_cells m h cells O | None => false end
   end.
+
+(* ====================================================================== reading back what the encoders wrote
+   (specification side of regexEscape and URL encoding; used only by the theorems and the harness) *)
+(* the metacharacters of the regular-expression syntax:  . ^ $ * + ? { } [ ] \ | ( ) *)
+Definition re_meta : list N := [46; 94; 36; 42; 43; 63; 123; 125; 91; 93; 92; 124; 40; 41]%N.
+Definition ascii_alnum (c : N) : bool :=
+  ((48 <=? c) && (c <=? 57) || (65 <=? c) && (c <=? 90) || (97 <=? c) && (c <=? 122))%N.
+(* the string a LITERAL pattern denotes: an unescaped non-metacharacter stands for itself, a backslash followed by a
+   character that is not an ASCII letter or digit stands for that character; anything else is not a literal pattern *)
+Fixpoint pat_literal (p : str) : option str :=
+  match p with
+  | [] => Some []
+  | c0 :: rest =>
+    if (c0 =? 92)%N then
+      match rest with
+      | c :: p' => if ascii_alnum c then None else option_map (cons c) (pat_literal p')
+      | [] => None
+      end
+    else if N_mem c0 re_meta then None else option_map (cons c0) (pat_literal rest)
+  end.
+
+Definition hex_val (c : N) : option N :=
+  (if (48 <=? c) && (c <=? 57) then Some (c - 48) else if (65 <=? c) && (c <=? 70) then Some (c - 55)
+   else if (97 <=? c) && (c <=? 102) then Some (c - 87) else None)%N.
+Fixpoint percent_decode (s : str) : option (list N) :=
+  match s with
+  | [] => Some []
+  | c :: t =>
+    if (c =? 37)%N then
+      match t with
+      | a :: b :: t' => match hex_val a, hex_val b, percent_decode t' with
+                        | Some x, Some y, Some r => Some ((16 * x + y)%N :: r)
+                        | _, _, _ => None end
+      | _ => None
+      end
+    else option_map (cons c) (percent_decode t)
+  end.
+Definition cont (b : N) : bool := ((128 <=? b) && (b <? 192))%N.
+Fixpoint utf8_decode (bs : list N) : option str :=
+  match bs with
+  | [] => Some []
+  | b0 :: t =>
+    (if b0 <? 128 then option_map (cons b0) (utf8_decode t)
+     else if b0 <? 192 then None
+     else if b0 <? 224 then
+       match t with
+       | b1 :: t' => if cont b1 then option_map (cons ((b0 - 192) * 64 + (b1 - 128))) (utf8_decode t') else None
+       | _ => None end
+     else if b0 <? 240 then
+       match t with
+       | b1 :: b2 :: t' => if cont b1 && cont b2
+                           then option_map (cons ((b0 - 224) * 4096 + (b1 - 128) * 64 + (b2 - 128))) (utf8_decode t') else None
+       | _ => None end
+     else if b0 <? 248 then
+       match t with
+       | b1 :: b2 :: b3 :: t' => if cont b1 && cont b2 && cont b3
+                           then option_map (cons ((b0 - 240) * 262144 + (b1 - 128) * 4096 + (b2 - 128) * 64 + (b3 - 128))) (utf8_decode t')
+                           else None
+       | _ => None end
+     else None)%N
+  end.
+Definition url_unquote (s : str) : option str :=
+  match percent_decode s with Some bs => utf8_decode bs | None => None end.
